@@ -44,6 +44,13 @@ def _find_year_caches(calc):
     found = []
     seen = set()
     holders = [calc] + list(type(calc).__mro__)
+    # process-global caches held by helper classes of the calendars package (the Hebrew scriptural calculator)
+    import sys as _sys
+    for mname, mod in list(_sys.modules.items()):
+        if mname.startswith("pyoda_time.calendars.") and mod is not None:
+            for v in list(vars(mod).values()):
+                if isinstance(v, type) and v.__module__ == mname and v not in holders:
+                    holders.append(v)
     for h in holders:
         try:
             items = list(vars(h).items())
@@ -87,8 +94,19 @@ def _year_alphabet(cal, slot_seed):
     return [(k, y) for y in years[:5] for k in ("start", "shape")]
 
 
+def _year_alphabet_boundary(cal):
+    """years on both sides of a 1024-slot boundary and their aliases one cache size away: the validator of a cache entry is
+    (year >> 10), so y and y+1 straddling a multiple of 1024 are the years where slot index and validator interact"""
+    lo, hi = cal.min_year, cal.max_year
+    for Y in (1023, 2047, 3071, 5119):
+        years = [y for y in (Y, Y + 1024, Y + 1, Y + 1025, Y - 1) if lo <= y <= hi]
+        if len(years) == 5:
+            return [(k, y) for y in years for k in ("start", "shape")]
+    return []
+
+
 def _years_histories(arg):
-    cal_id, depth, seed = arg
+    cal_id, depth, seed, boundary = arg
     acc = Acc()
     cal = CalendarSystem.for_id(cal_id)
     try:
@@ -97,7 +115,9 @@ def _years_histories(arg):
         caches = []
     if not caches:
         acc.degrade("year-start cache of %s not reachable: histories run on top of whatever earlier queries left behind" % cal_id)
-    alpha = _year_alphabet(cal, seed)
+    alpha = _year_alphabet_boundary(cal) if boundary else _year_alphabet(cal, seed)
+    if not alpha:
+        return acc
     ref = calref.for_id(cal_id)
     fresh = {}
     for sym in alpha:
@@ -521,7 +541,9 @@ def H_years(cal_id):
             return ("error", type(e).__name__), "thread raised %r" % (e,)
         ok = (s.results[0] == exp1, s.results[1] == (exp2, exp1))
         return ok, (None if all(ok) else "threads querying aliasing years %d and %d got %r / %r, sequential answers %r / %r" % (y1, y2, s.results[0], s.results[1], exp1, exp2))
-    files = ("_year_month_day_calculator.py", "_year_start_cache_entry.py", "_hebrew_scriptural_calculator.py")
+    # the molad arithmetic of the Hebrew calculator is pure (arguments only); scheduling points are the cache accessors
+    files = ("_year_month_day_calculator.py::_get_start_of_year_in_days", "_year_start_cache_entry.py",
+             "_hebrew_scriptural_calculator.py::__get_or_populate_cache|__compute_cache_entry")
     return make, check, files
 
 
@@ -842,7 +864,7 @@ def run(ctx):
             ctx.merge_part("schedules", acc)
         return
     ydepth = 3 if tier == "quick" else 4
-    jobs = [(cid, ydepth, ctx.seed) for cid in CalendarSystem.ids]
+    jobs = [(cid, ydepth, ctx.seed, b) for cid in CalendarSystem.ids for b in (False, True)]
     for acc in pmap(_years_histories, jobs):
         ctx.merge_part("hist_year_caches", acc)
     zdepth = 3 if tier == "quick" else 4
